@@ -13,13 +13,14 @@ structure TS (S A : Type) where
   step : S → A → S
   inv : S → Prop
   mu : S → Nat
-  side : A → Bool
+  /-- which side takes the step; `none` = a neutral step (e.g. the user of an asynchronous socket queues a buffer) -/
+  side : A → Option Bool
   can : S → Bool → Prop
   fin : S → Prop
   ok : A → Prop
   step_ok : ∀ s a, inv s → ok a →
-    inv (step s a) ∧ mu (step s a) ≤ mu s ∧ (can s (side a) → mu (step s a) < mu s) ∧
-    (can s (!side a) → can (step s a) (!side a)) ∧ (fin s → fin (step s a))
+    inv (step s a) ∧ mu (step s a) ≤ mu s ∧ (∀ r, side a = some r → can s r → mu (step s a) < mu s) ∧
+    (∀ r, side a ≠ some r → can s r → can (step s a) r) ∧ (fin s → fin (step s a))
   live : ∀ s, inv s → ¬ fin s → can s true ∨ can s false
   zero : ∀ s, inv s → mu s = 0 → fin s
 
@@ -27,7 +28,8 @@ variable {S A : Type}
 
 def TS.run (T : TS S A) (l : List A) (s : S) : S := l.foldl T.step s
 
-def TS.BothSides (T : TS S A) (v : List A) : Prop := (∃ a ∈ v, T.side a = true) ∧ (∃ a ∈ v, T.side a = false)
+def TS.BothSides (T : TS S A) (v : List A) : Prop :=
+  (∃ a ∈ v, T.side a = some true) ∧ (∃ a ∈ v, T.side a = some false)
 
 /-- each side steps at least once in every window of `w` consecutive steps -/
 def TS.SideFair (T : TS S A) (w : Nat) (l : List A) : Prop :=
@@ -51,7 +53,7 @@ theorem TS.run_spec (T : TS S A) : ∀ (l : List A) (s : S), T.inv s → (∀ a 
     exact ⟨j1, Nat.le_trans j2 m1, fun hf => j3 (f1 hf)⟩
 
 theorem TS.side_progress (T : TS S A) (r : Bool) : ∀ (v : List A) (s : S), T.inv s → (∀ a ∈ v, T.ok a) →
-    T.can s r → (∃ a ∈ v, T.side a = r) → T.mu (T.run v s) < T.mu s := by
+    T.can s r → (∃ a ∈ v, T.side a = some r) → T.mu (T.run v s) < T.mu s := by
   intro v
   induction v with
   | nil => intro s _ _ _ h; obtain ⟨a, ha, _⟩ := h; cases ha
@@ -60,13 +62,12 @@ theorem TS.side_progress (T : TS S A) (r : Bool) : ∀ (v : List A) (s : S), T.i
     obtain ⟨i1, m1, p1, k1, _⟩ := T.step_ok s b hinv (hok b (List.mem_cons_self ..))
     have hok' : ∀ a ∈ v, T.ok a := fun a ha => hok a (List.mem_cons_of_mem _ ha)
     rw [TS.run_cons]
-    by_cases hb : T.side b = r
-    · have := p1 (hb ▸ hp)
+    by_cases hb : T.side b = some r
+    · have := p1 r hb hp
       have := (T.run_spec v _ i1 hok').2.1
       omega
-    · have hr : r = !T.side b := by cases r <;> cases hbc : T.side b <;> simp_all
-      have hp' : T.can (T.step s b) r := by rw [hr]; exact k1 (hr ▸ hp)
-      have hex' : ∃ a ∈ v, T.side a = r := by
+    · have hp' : T.can (T.step s b) r := k1 r hb hp
+      have hex' : ∃ a ∈ v, T.side a = some r := by
         obtain ⟨a, ha, hac⟩ := hex
         rcases List.mem_cons.mp ha with rfl | ha
         · exact absurd hac hb
